@@ -53,5 +53,44 @@ mod proofs {
         std::mem::forget(cd); std::mem::forget(ctx);
     }
 
+    /// generator whose first 24 buffered bytes are arbitrary and the rest of the 4096-byte block is zero (a zero word is always
+    /// accepted by rand's rejection sampling, so the rejection loops are bounded by 7 draws: longer rejection runs are outside the bound)
+    fn sym_blake() -> crate::util::BlakeRNG {
+        let w: [u8; 24] = kani::any();
+        let mut b = [0u8; crate::util::verif_v::random_generator::BUF];
+        b[0] = w[0]; b[1] = w[1]; b[2] = w[2]; b[3] = w[3]; b[4] = w[4]; b[5] = w[5]; b[6] = w[6]; b[7] = w[7]; b[8] = w[8]; b[9] = w[9]; b[10] = w[10]; b[11] = w[11];
+        b[12] = w[12]; b[13] = w[13]; b[14] = w[14]; b[15] = w[15]; b[16] = w[16]; b[17] = w[17]; b[18] = w[18]; b[19] = w[19]; b[20] = w[20]; b[21] = w[21]; b[22] = w[22]; b[23] = w[23];
+        crate::util::verif_v::random_generator::mk_blake_rng(b, crate::util::PRNGSeed([0u8; 64]), 1, 0)
+    }
+    fn create_rng_stub(_this: &crate::context::HeContext) -> crate::util::BlakeRNG { sym_blake() }
+
+    // @harness id=C01 tier=quick unwind=10 timeout=3000 fs=4096 mem=24
+    // @desc public-key encryption of zero BELOW the key level takes each public-key polynomial at the KEY level's stride: with a public key whose second polynomial is zero, the second component of the fresh ciphertext is exactly the sampled error -- every coefficient small (|e| <= 21) -- whatever the first public-key polynomial holds in its other RNS components, for every output of the randomness source; size, level and metadata as requested
+    // @bounds BFV N=2, chain {97,113,193}: key level 3 primes, encryption at the LAST level {97}; public key (pk0 arbitrary canonical residues in all three components, pk1 = 0); coefficient-form output; randomness: first 24 bytes of both generators arbitrary (covers all draws of one encryption when at most 4 words are rejected)
+    // @funcs encrypt_zero::asymmetric_with_u_prng, sample::ternary, sample::centered_binomial, polysmallmod::{ntt_p,intt_p,dyadic_product_p,add_inplace_p}, Ciphertext::resize, PublicKey::as_ciphertext
+    // @stubs HeContext::create_random_generator -> generator with arbitrary buffered bytes (entropy source outside the claim); HeContext::get_context_data -> linear search over the literal chain; alloc::sync::Arc::drop_slow -> no-op
+    #[kani::proof]
+    #[kani::stub(crate::context::HeContext::get_context_data, crate::context::verif_v::get_context_data_stub)]
+    #[kani::stub(alloc::sync::Arc::drop_slow, crate::verif_v::arc_drop_slow_noop)]
+    #[kani::stub(crate::context::HeContext::create_random_generator, create_rng_stub)]
+    fn c01_pk_encrypt_zero_lower_level_stride() {
+        use crate::key::verif_v::mk_public_key; use crate::text::verif_v::mk_ciphertext;
+        let ctx = lits::ctx_bfv_n2();
+        let key_pid = *ctx.key_parms_id(); let last = *ctx.last_parms_id();
+        let r: [u8; 6] = kani::any();
+        kani::assume(r[0] < 97 && r[1] < 97 && r[2] < 113 && r[3] < 113 && r[4] < 193 && r[5] < 193);
+        let mut d = vec![0u64; 12]; let mut i = 0; while i < 6 { d[i] = r[i] as u64; i += 1; }
+        let pk = mk_public_key(mk_ciphertext(2, 3, 2, d, key_pid, 1.0, true, 1));
+        let mut u_prng = sym_blake();
+        let mut dest = crate::Ciphertext::new();
+        encrypt_zero::asymmetric_with_u_prng(&pk, &ctx, &last, false, &mut u_prng, &mut dest);
+        assert!(dest.size() == 2 && dest.data().len() == 4 && *dest.parms_id() == last && !dest.is_ntt_form() && dest.scale() == 1.0 && dest.correction_factor() == 1);
+        let k: usize = kani::any(); kani::assume(k < 2);
+        let e = dest.data()[2 + k];
+        kani::cover!(r[2] != 0 && e != 0);
+        assert!(e <= 21 || (e >= 97 - 21 && e < 97));
+        std::mem::forget(pk); std::mem::forget(ctx);
+    }
+
     #[cfg(test)] include!("/verif/.build/playback/util_rlwe_v.rs");
 }
